@@ -406,6 +406,20 @@ def t_pathsyntax( ctx ):
         for ch in ( '@', '/', '[', ']', '-', '.', '0x' ):
             if ch in c and not c.startswith( 'Format' ) and not c.startswith( 'Unformattable' ):
                 emitted.add( ch )
+    # any other punctuation used as a separator ( `<sep>.join( ... )`, or `+ '<sep>' +` ) must be one of the delimiters the parser knows
+    known = set( '@/[]-.' )
+    for c in ast.walk( fp ):
+        seps = []
+        if isinstance( c, ast.Call ) and isinstance( c.func, ast.Attribute ) and c.func.attr == 'join' and isinstance( c.func.value, ast.Constant ) and isinstance( c.func.value.value, str ):
+            seps.append(( c, c.func.value.value ))
+        if isinstance( c, ast.BinOp ) and isinstance( c.op, ast.Add ):
+            for side in ( c.left, c.right ):
+                if isinstance( side, ast.Constant ) and isinstance( side.value, str ) and 0 < len( side.value ) <= 2:
+                    seps.append(( c, side.value ))
+        for node_, sep in seps:
+            extra = set( sep ) - known - set( ' ' )
+            if extra and not any( ch.isalnum() for ch in sep ):
+                res.bad( src, node_, 'format_path separates with %r' % sep, 'the path parser does not recognise this delimiter: a formatted path does not parse back' )
     pp = dsrc.get( 'parse_path' ); ppe = dsrc.get( 'parse_path_elements' ); ppc = dsrc.get( 'parse_path_component' ); pi = dsrc.get( 'parse_int' )
     parser_consts = ''.join( c.value for f in ( pp, ppe, ppc, pi ) for c in ast.walk( f ) if isinstance( c, ast.Constant ) and isinstance( c.value, str ))
     need = { '@': ( pp, ppc ), '/': ( pp, ), '[': ( ppe, ppc ), ']': ( ppe, ppc ), '-': ( ppe, ), '.': ( pp, ) }
